@@ -162,13 +162,40 @@ fn c_opt(r: &mut Rng) -> Option<f32> {
 
 /// one single-node tree through the real TaffyTree, rounding disabled
 fn run_leaf(out: &mut Out, style: &Style, ctx: Option<Ctx>, avail: Size<AvailableSpace>) {
-    let req = format!("leaf {} {} {} {}", style_line(style), show_ctx(&ctx), av(avail.width), av(avail.height));
+    run_leaf_after(out, style, ctx, avail, None)
+}
+
+/// A single-node tree that has been laid out before with another style / content / available space (`prev`) and is then brought to
+/// (style, ctx) with `set_style` / `set_node_context` (each called only when its argument differs from the previous one) and laid out again.
+/// C19 quantifies over single-node trees, not over how they came about: the request line and the expected answer are those of a fresh
+/// tree, and the measure calls reported are those of the last pass alone.
+fn run_leaf_after(out: &mut Out, style: &Style, ctx: Option<Ctx>, avail: Size<AvailableSpace>, prev: Option<(Style, Option<Ctx>, Size<AvailableSpace>)>) {
+    let mut req = format!("leaf {} {} {} {}", style_line(style), show_ctx(&ctx), av(avail.width), av(avail.height));
+    let again = prev.is_some();
     let res = catch(|| {
         let mut t: TaffyTree<Ctx> = TaffyTree::new();
         t.disable_rounding();
-        let n = match ctx {
-            Some(c) => t.new_leaf_with_context(style.clone(), c).unwrap(),
-            None => t.new_leaf(style.clone()).unwrap(),
+        let n = match &prev {
+            None => match ctx {
+                Some(c) => t.new_leaf_with_context(style.clone(), c).unwrap(),
+                None => t.new_leaf(style.clone()).unwrap(),
+            },
+            Some((pstyle, pctx, pavail)) => {
+                let n = match pctx {
+                    Some(c) => t.new_leaf_with_context(pstyle.clone(), *c).unwrap(),
+                    None => t.new_leaf(pstyle.clone()).unwrap(),
+                };
+                t.compute_layout_with_measure(n, *pavail, |k, a, _id, c, _s| measure(k, a, c)).unwrap();
+                if pstyle != style {
+                    t.set_style(n, style.clone()).unwrap();
+                }
+                if show_ctx(pctx) != show_ctx(&ctx) {
+                    t.set_node_context(n, ctx).unwrap();
+                } else if pstyle == style {
+                    t.mark_dirty(n).unwrap();
+                }
+                n
+            }
         };
         let mut calls: Vec<Call> = vec![];
         t.compute_layout_with_measure(n, avail, |k, a, _id, c, _s| {
@@ -184,6 +211,11 @@ fn run_leaf(out: &mut Out, style: &Style, ctx: Option<Ctx>, avail: Size<Availabl
             out.qa(&req, "panic");
         }
         Ok((l, calls)) => {
+            if again {
+                // the number of measure calls of the last pass goes into the request: 0 = answered from the cache
+                req = format!("leafagain {} {}", calls.len(), &req[5..]);
+                out.count(&format!("leafagain:calls:{}", calls.len()));
+            }
             // implementation-side oracles (theorem conclusions evaluated directly)
             let pbw = l.padding.left + l.padding.right + l.border.left + l.border.right;
             let pbh = l.padding.top + l.padding.bottom + l.border.top + l.border.bottom;
@@ -551,6 +583,39 @@ pub fn run(cfg: &Cfg, out: &mut Out) -> String {
         }
         idx += 1;
     }
+    // the same single-node trees reached through a history: an earlier layout, then set_style / set_node_context, then the layout compared
+    // (seeded C19-5 = C01-5: set_node_context(n, None) did not dirty the node, so a leaf whose content was removed kept its old size)
+    let n_again = cfg.n(3000, 200_000);
+    let after_tree_start = idx + cfg.n(1500, 50_000);
+    let again = |out: &mut Out, idx: u64| {
+        let mut r = Rng::for_case(cfg.seed, idx);
+        let style = gen_leaf_style(&mut r);
+        let ctx = c_ctx(&mut r);
+        let avail = Size { width: c_av1(&mut r), height: c_av1(&mut r) };
+        let prev = match r.below(3) {
+            // only the content changes (same style, same available space): the node is dirtied by set_node_context alone
+            0 => {
+                let mut pc = c_ctx(&mut r);
+                if show_ctx(&pc) == show_ctx(&ctx) {
+                    pc = if ctx.is_some() { None } else { Some(Ctx::Fixed(24.0, 8.0)) };
+                }
+                (style.clone(), pc, avail)
+            }
+            // only the style changes
+            1 => (gen_leaf_style(&mut r), ctx, avail),
+            // (a history in which only the available space changes dirties nothing: whether the cache tells the two requests apart is the
+            // subject of C01/C02 — its key leaves out parent_size, known finding c01 — and is not asked here)
+            _ => (gen_leaf_style(&mut r), c_ctx(&mut r), Size { width: c_av1(&mut r), height: c_av1(&mut r) }),
+        };
+        out.begin_case(idx, "leafagain");
+        out.count(match (prev.0 == style, show_ctx(&prev.1) == show_ctx(&ctx)) {
+            (true, false) => "leafagain:context-only",
+            (false, true) => "leafagain:style-only",
+            (true, true) => "leafagain:available-space-only",
+            (false, false) => "leafagain:all",
+        });
+        run_leaf_after(out, &style, ctx, avail, Some(prev));
+    };
     let n_tree = cfg.n(1500, 50_000);
     for _ in 0..n_tree {
         if cfg.wants(idx) {
@@ -578,6 +643,13 @@ pub fn run(cfg: &Cfg, out: &mut Out) -> String {
             let avail = gen_available(&mut r);
             out.begin_case(idx, "dispatch");
             run_dispatch(out, &d, avail);
+        }
+        idx += 1;
+    }
+    debug_assert_eq!(idx, after_tree_start);
+    for _ in 0..n_again {
+        if cfg.wants(idx) {
+            again(out, idx);
         }
         idx += 1;
     }
